@@ -4,7 +4,7 @@ from . import _partition
 
 
 def run(ctx):
-    n, stats = _partition.feed(ctx, ("R02-",))
+    n, stats = _partition.feed(ctx, ("R02-",), rename={"R03-ALIAS": "R02-ALIAS"})
     ctx.count("R02 (tiling obligations from abstract make_children runs)", n, 2000)
     ctx.count("R02 abstract runs", stats["paths"], 200)
     return dict(
